@@ -372,6 +372,20 @@ static void gen_blob_case(hctx* h, fcase* fc, int codec, int kind, size_t n) {
     }
 }
 
+/* directed: one page that does not compress at all, of exactly `body` bytes (one REQUIRED BYTE_ARRAY value of body - 4 random
+ * bytes): the whole page is ONE literal run, whose length encoding has its boundaries at 15 + 255 k (LZ4: a length that ends
+ * in a byte 255 needs a closing 0) and at 60 / 61 / 256 / 257 / 65536 / 65537 (SNAPPY: length classes) */
+static void gen_literal_case(hctx* h, fcase* fc, int codec, size_t body) {
+    memset(fc, 0, sizeof *fc);
+    fc->ncols = 1; snprintf(fc->cols[0].name, sizeof fc->cols[0].name, "l"); fc->cols[0].rep = 0; fc->cols[0].ptype = 6; fc->cols[0].tlen = 0;
+    fc->codec = codec; fc->page = 1024 * 1024; fc->nsteps = 1;
+    fstep* t = &fc->steps[0]; t->kind = 0; t->col = 0; t->has_defs = 0; t->has_reps = 0;
+    t->nrows = 1; t->nvals = 1; t->defs = (uint8_t*)h_alloc(1); t->defs[0] = 1; t->reps = (uint8_t*)h_alloc(1); t->reps[0] = 0;
+    t->vals = (uint8_t**)h_alloc(sizeof(uint8_t*)); t->vlen = (int*)h_alloc(sizeof(int));
+    size_t n = body - 4; uint8_t* p = h_alloc(n ? n : 1); t->vals[0] = p; t->vlen[0] = (int)n;
+    for (size_t i = 0; i < n; i++) p[i] = (uint8_t)h_next(h);
+}
+
 /* directed: level runs whose RLE run header sits at a varint length boundary (count << 1 = 2^7, 2^14, 2^21: runs of exactly
  * 64, 8192, 1048576 equal levels and their neighbours), as the only run of a page and behind a short bit-packed prefix.
  * One OPTIONAL (rep = 1) or REPEATED (rep = 2) INT32 column, one batch, one page. */
@@ -440,6 +454,12 @@ static void gen_file(hctx* h) {
           if (runs[i] == 8192 || runs[i] == 8197) { gen_run_case(h, &fc, 1, runs[i], 1); run_case(h, &fc); free_case(&fc); }
       }
       if (h->thorough) { fcase fc; gen_run_case(h, &fc, 1, 1048576, 0); run_case(h, &fc); free_case(&fc); gen_run_case(h, &fc, 1, 1048577, 1); run_case(h, &fc); free_case(&fc); } }
+    { static const int lc[] = { 5, 7, 1 };
+      static const size_t bodies[] = { 270, 525, 780, 15 + 255 * 7, 269, 271, 60, 61, 64, 65, 256, 257, 258, 65536, 65537, 65539 };
+      for (int ci = 0; ci < 3; ci++) for (unsigned bi = 0; bi < sizeof bodies / sizeof bodies[0]; bi++) {
+          if (!h->thorough && bi >= 4 && (bi + (unsigned)ci) % 3 != 0) continue;
+          fcase fc; gen_literal_case(h, &fc, lc[ci], bodies[bi]); run_case(h, &fc); free_case(&fc);
+      } }
     { static const int bc[] = { 1, 5, 7, 6, 2, 0 };
       for (int ci = 0; ci < (h->thorough ? 6 : 3); ci++) {
           fcase fc;
@@ -497,17 +517,20 @@ static void run_batlate(hctx* h, fcase* fc, long bs, int mode) {
     size_t fn; uint8_t* fb = slurp(path, &fn);
     uint8_t* fb0 = h_alloc(fn); memcpy(fb0, fb, fn);        /* the caller's buffer as handed to the reader */
     uint64_t dg[2] = { 0xCBF29CE484222325ull, 0xCBF29CE484222325ull }; long nb = 0;
+    long long rows_b[2] = { 0, 0 }, rows_meta = -1;
     for (int late = 0; late < 2; late++) {
         carquet_error_t err; memset(&err, 0, sizeof err);
         carquet_reader_options_t ro; carquet_reader_options_init(&ro); ro.use_mmap = mode == 1;
         carquet_reader_t* rd = mode == 2 ? carquet_reader_open_buffer(fb, fn, &ro, &err) : carquet_reader_open(path, &ro, &err);
         if (!rd) { dg[late] = 1; continue; }
+        rows_meta = (long long)carquet_reader_num_rows(rd);
         carquet_batch_reader_config_t cfg; carquet_batch_reader_config_init(&cfg); cfg.batch_size = bs; cfg.num_threads = 1; cfg.use_mmap = mode == 1;
         carquet_batch_reader_t* br = carquet_batch_reader_create(rd, &cfg, &err);
         carquet_row_batch_t* kept[512]; long nk = 0;
         while (br && nk < 512) {
             carquet_row_batch_t* b = NULL;
             if (carquet_batch_reader_next(br, &b) != CARQUET_OK || !b) break;
+            rows_b[late] += (long long)carquet_row_batch_num_rows(b);
             if (late) kept[nk++] = b; else { dg[0] = batch_digest(fc, b, dg[0]); carquet_row_batch_free(b); nk++; }
         }
         if (late) { for (long i = 0; i < nk; i++) dg[1] = batch_digest(fc, kept[i], dg[1]); for (long i = 0; i < nk; i++) carquet_row_batch_free(kept[i]); }
@@ -515,8 +538,12 @@ static void run_batlate(hctx* h, fcase* fc, long bs, int mode) {
         if (br) carquet_batch_reader_free(br);
         carquet_reader_close(rd);
     }
-    fprintf(h->out, " | nb=%ld dg_late=%llu dg_now=%llu p_late_eq_now=%d p_buffer_intact=%d\n", nb, (unsigned long long)dg[1], (unsigned long long)dg[0], dg[0] == dg[1],
-            memcmp(fb, fb0, fn) == 0);
+    /* the batches of a file hold all its rows (the loop above is the documented one: it ends at the first status that is not
+     * OK; a row group WITHOUT rows in the middle of a file is not the end of the file); not judged when 512 batches were kept */
+    int no_repeated = 1; for (int c = 0; c < fc->ncols; c++) if (fc->cols[c].rep == 2) no_repeated = 0;   /* a batch of a REPEATED column counts entries */
+    int all_rows = !no_repeated || nb >= 512 || rows_meta < 0 || (rows_b[0] == rows_meta && rows_b[1] == rows_meta);
+    fprintf(h->out, " | nb=%ld rows=%lld dg_late=%llu dg_now=%llu p_late_eq_now=%d p_buffer_intact=%d p_all_rows_delivered=%d\n", nb, rows_b[0],
+            (unsigned long long)dg[1], (unsigned long long)dg[0], dg[0] == dg[1], memcmp(fb, fb0, fn) == 0, all_rows);
     h->n_lines++; free(fb); free(fb0); unlink(path);
 }
 /* directed: row groups whose column chunks span several memory pages (REQUIRED INT64 + OPTIONAL DOUBLE, uncompressed, `rows`
@@ -543,10 +570,146 @@ static void gen_big_rg_case(hctx* h, fcase* fc, int nrg, int rows) {
     fc->nsteps = ns;
 }
 
+/* ---- a file of more than 2 GiB / 4 GiB: the footer of a small file moved `gap` bytes towards the end through a hole in a
+ * sparse file (every offset in the footer is absolute, so the file stays a valid Parquet file whose pages lie `gap` bytes and
+ * more before its end).  Read through stdio, mmap and as a buffer (our own mapping of the file): same batches as the small file.
+ *   bigfile <case> gap=<bytes> bs=<batch size> | dg0= dg1= dg2= dg_small= p_big_modes_agree=0/1 */
+#include <sys/mman.h>
+#include <fcntl.h>
+static uint64_t digest_file(const fcase* fc, const char* path, const uint8_t* buf, size_t n, int mode, long bs) {
+    carquet_error_t err; memset(&err, 0, sizeof err);
+    carquet_reader_options_t ro; carquet_reader_options_init(&ro); ro.use_mmap = mode == 1;
+    carquet_reader_t* rd = mode == 2 ? carquet_reader_open_buffer(buf, n, &ro, &err) : carquet_reader_open(path, &ro, &err);
+    if (!rd) return 1;
+    uint64_t dg = 0xCBF29CE484222325ull;
+    carquet_batch_reader_config_t cfg; carquet_batch_reader_config_init(&cfg); cfg.batch_size = bs; cfg.num_threads = 1; cfg.use_mmap = mode == 1;
+    carquet_batch_reader_t* br = carquet_batch_reader_create(rd, &cfg, &err);
+    int last = -99;
+    for (int guard = 0; br && guard < 100000; guard++) {
+        carquet_row_batch_t* b = NULL;
+        last = (int)carquet_batch_reader_next(br, &b);
+        if (last != 0 || !b) break;
+        dg = batch_digest(fc, b, dg); carquet_row_batch_free(b);
+    }
+    dg = bl_fnv(dg, (const uint8_t*)&last, sizeof last);
+    if (br) carquet_batch_reader_free(br);
+    carquet_reader_close(rd);
+    return dg;
+}
+static void run_bigfile(hctx* h, fcase* fc, unsigned long long gap, long bs) {
+    char path[128], big[128]; snprintf(path, sizeof path, "/tmp/verif_h_%d_s.parquet", (int)getpid()); snprintf(big, sizeof big, "/tmp/verif_h_%d_big.parquet", (int)getpid());
+    fprintf(h->out, "bigfile");
+    { FILE* save = h->out; char* mem = NULL; size_t msz = 0; FILE* ms = open_memstream(&mem, &msz);
+      h->out = ms; print_case(h, fc); fclose(ms); h->out = save; fputs(mem + 2, h->out); free(mem); }
+    fprintf(h->out, " gap=%llu bs=%ld", gap, bs); h_call(h);
+    int st[MAXSTEP + 2], nst = 0;
+    if (write_file(fc, path, st, &nst) != 0) { fprintf(h->out, " | err=create\n"); h->n_lines++; return; }
+    size_t fn; uint8_t* fb = slurp(path, &fn);
+    if (fn < 12) { fprintf(h->out, " | err=small\n"); h->n_lines++; free(fb); unlink(path); return; }
+    uint32_t flen = (uint32_t)fb[fn - 8] | ((uint32_t)fb[fn - 7] << 8) | ((uint32_t)fb[fn - 6] << 16) | ((uint32_t)fb[fn - 5] << 24);
+    size_t fstart = fn - 8 - flen;
+    uint64_t small = digest_file(fc, path, fb, fn, 0, bs);
+    int fd = open(big, O_RDWR | O_CREAT | O_TRUNC, 0600);
+    int okw = fd >= 0 && pwrite(fd, fb, fstart, 0) == (ssize_t)fstart && pwrite(fd, fb + fstart, flen + 8, (off_t)(fstart + gap)) == (ssize_t)(flen + 8);
+    if (!okw) { fprintf(h->out, " | skipped=1 triv=1\n"); h->n_lines++; if (fd >= 0) close(fd); free(fb); unlink(path); unlink(big); return; }
+    size_t bn = (size_t)(fn + gap);
+    void* m = mmap(NULL, bn, PROT_READ, MAP_PRIVATE | MAP_NORESERVE, fd, 0);
+    uint64_t dg[3] = { 0, 0, 0 };
+    dg[0] = digest_file(fc, big, NULL, 0, 0, bs);
+    dg[1] = digest_file(fc, big, NULL, 0, 1, bs);
+    dg[2] = m != MAP_FAILED ? digest_file(fc, big, (const uint8_t*)m, bn, 2, bs) : small;
+    if (m != MAP_FAILED) munmap(m, bn);
+    close(fd);
+    fprintf(h->out, " | dg0=%llu dg1=%llu dg2=%llu dg_small=%llu p_big_modes_agree=%d\n", (unsigned long long)dg[0], (unsigned long long)dg[1],
+            (unsigned long long)dg[2], (unsigned long long)small, dg[0] == small && dg[1] == small && dg[2] == small);
+    h->n_lines++; free(fb); unlink(path); unlink(big);
+}
+
+/* ---- page headers as other writers fill them in: a column WITHOUT levels (REQUIRED, not repeated) has no level streams, and
+ * what its v1 data page headers state as definition / repetition level encoding means nothing - parquet-mr states BIT_PACKED
+ * there.  The level-encoding fields of every data page header of a carquet-written file are rewritten in place (RLE = 3 ->
+ * BIT_PACKED = 4: same header size, the checksum covers the body only); the file must read the same as before in all modes.
+ *   hdrtags <case> bs= | pages=<rewritten> dg0= dg1= dg2= dg_orig= p_tags_ignored_without_levels=0/1 */
+#include "thrift/parquet_types.h"
+#include "core/arena.h"
+#include "core/buffer.h"
+static void run_hdrtags(hctx* h, fcase* fc, long bs) {
+    char path[128], alt[128]; snprintf(path, sizeof path, "/tmp/verif_h_%d_t.parquet", (int)getpid()); snprintf(alt, sizeof alt, "/tmp/verif_h_%d_t2.parquet", (int)getpid());
+    fprintf(h->out, "hdrtags");
+    { FILE* save = h->out; char* mem = NULL; size_t msz = 0; FILE* ms = open_memstream(&mem, &msz);
+      h->out = ms; print_case(h, fc); fclose(ms); h->out = save; fputs(mem + 2, h->out); free(mem); }
+    fprintf(h->out, " bs=%ld", bs); h_call(h);
+    int st[MAXSTEP + 2], nst = 0;
+    if (write_file(fc, path, st, &nst) != 0) { fprintf(h->out, " | err=create\n"); h->n_lines++; return; }
+    size_t fn; uint8_t* fb = slurp(path, &fn);
+    if (fn < 12) { fprintf(h->out, " | err=small\n"); h->n_lines++; free(fb); unlink(path); return; }
+    uint64_t orig = digest_file(fc, path, fb, fn, 0, bs);
+    uint32_t flen = (uint32_t)fb[fn - 8] | ((uint32_t)fb[fn - 7] << 8) | ((uint32_t)fb[fn - 6] << 16) | ((uint32_t)fb[fn - 5] << 24);
+    size_t fstart = fn - 8 - flen; int pages = 0, bad = 0;
+    carquet_arena_t arena; carquet_arena_init(&arena);
+    parquet_file_metadata_t md; carquet_error_t err; memset(&err, 0, sizeof err);
+    if (parquet_parse_file_metadata(fb + fstart, flen, &arena, &md, &err) == CARQUET_OK) {
+        for (int g = 0; g < md.num_row_groups; g++) for (int c = 0; c < md.row_groups[g].num_columns; c++) {
+            parquet_column_metadata_t* cm = &md.row_groups[g].columns[c].metadata;
+            size_t off = (size_t)cm->data_page_offset, end = off + (size_t)cm->total_compressed_size;
+            while (off + 8 <= fstart && off < end) {
+                parquet_page_header_t ph; size_t hs; size_t avail = fstart - off; if (avail > 4096) avail = 4096;
+                if (parquet_parse_page_header(fb + off, avail, &ph, &hs, &err) != CARQUET_OK) { bad = 1; break; }
+                if (ph.type == CARQUET_PAGE_DATA) {
+                    ph.data_page_header.definition_level_encoding = CARQUET_ENCODING_BIT_PACKED;
+                    ph.data_page_header.repetition_level_encoding = CARQUET_ENCODING_BIT_PACKED;
+                    carquet_buffer_t out; carquet_buffer_init(&out);
+                    if (parquet_write_page_header(&ph, &out, NULL) == CARQUET_OK && out.size == hs) { memcpy(fb + off, out.data, hs); pages++; } else bad = 1;
+                    carquet_buffer_destroy(&out);
+                }
+                off += hs + (size_t)ph.compressed_page_size;
+            }
+        }
+    } else bad = 1;
+    carquet_arena_destroy(&arena);
+    if (bad || pages == 0) { fprintf(h->out, " | skipped=1 triv=1\n"); h->n_lines++; free(fb); unlink(path); return; }
+    FILE* f = fopen(alt, "wb"); if (f) { fwrite(fb, 1, fn, f); fclose(f); }
+    uint64_t dg[3];
+    for (int mode = 0; mode < 3; mode++) dg[mode] = digest_file(fc, alt, fb, fn, mode, bs);
+    fprintf(h->out, " | pages=%d dg0=%llu dg1=%llu dg2=%llu dg_orig=%llu p_tags_ignored_without_levels=%d\n", pages, (unsigned long long)dg[0],
+            (unsigned long long)dg[1], (unsigned long long)dg[2], (unsigned long long)orig, dg[0] == orig && dg[1] == orig && dg[2] == orig);
+    h->n_lines++; free(fb); unlink(path); unlink(alt);
+}
+
 static void gen_batlate(hctx* h) {
+    for (int t = 0; t < (h->thorough ? 40 : 6); t++) {
+        fcase fc; gen_case(h, &fc, 1);
+        for (int c = 0; c < fc.ncols; c++) fc.cols[c].rep = 0;                   /* REQUIRED: no level streams */
+        for (int q = 0; q < fc.nsteps; q++) if (fc.steps[q].kind == 0) { fstep* st = &fc.steps[q]; st->has_defs = 0; st->has_reps = 0;
+            /* every row present: the values array must hold one value per row */
+            if (st->nvals < st->nrows) { fcol* cl = &fc.cols[st->col]; st->vals = (uint8_t**)realloc(st->vals, (size_t)st->nrows * sizeof(uint8_t*)); st->vlen = (int*)realloc(st->vlen, (size_t)st->nrows * sizeof(int));
+                for (int j = st->nvals; j < st->nrows; j++) gen_value(h, cl, &st->vals[j], &st->vlen[j]); st->nvals = st->nrows; }
+            for (int r = 0; r < st->nrows; r++) st->defs[r] = 1; }
+        if (t % 2 == 0) fc.codec = 0;
+        if (h_chance(h, 2, 3)) fc.page = 16 + (long)h_below(h, 100);
+        run_hdrtags(h, &fc, 1 + (long)h_below(h, 9)); free_case(&fc);
+    }
+    /* pages 2.5 GiB (and, thorough, 4 GiB + / 6.5 GiB) before the end of the file */
+    { static const unsigned long long gaps[] = { 2684354560ull, 4294967296ull + 4096, 6979321856ull };
+      for (int t = 0; t < (h->thorough ? 3 : 1); t++) {
+          fcase fc; gen_case(h, &fc, 1);
+          for (int c = 0; c < fc.ncols; c++) if (fc.cols[c].rep == 2) fc.cols[c].rep = 1;
+          fc.page = 64 + (long)h_below(h, 100);
+          run_bigfile(h, &fc, gaps[t], 1 + (long)h_below(h, 9)); free_case(&fc);
+      } }
     { fcase fc; gen_big_rg_case(h, &fc, 3, 2200);
       for (int mode = 0; mode < 3; mode++) run_batlate(h, &fc, 700 + (long)h_below(h, 900), mode);
       free_case(&fc); }
+    /* row groups WITHOUT rows between row groups that have some (a 0-row batch per column, then new_row_group) */
+    for (int t = 0; t < (h->thorough ? 12 : 3); t++) {
+        fcase fc;
+        for (;;) { gen_case(h, &fc, 1); for (int c = 0; c < fc.ncols; c++) if (fc.cols[c].rep == 2) fc.cols[c].rep = 1; int nrgs = 0; for (int q = 0; q < fc.nsteps; q++) if (fc.steps[q].kind == 1) nrgs++; if (nrgs >= 2) break; free_case(&fc); }
+        /* empty every batch of the second row group */
+        { int g = 0; for (int q = 0; q < fc.nsteps; q++) { if (fc.steps[q].kind == 1) { g++; continue; }
+              if (g == 1) { fstep* st = &fc.steps[q]; for (int j = 0; j < st->nvals; j++) free(st->vals[j]); st->nvals = 0; st->nrows = 0; } } }
+        for (int mode = 0; mode < 3; mode++) run_batlate(h, &fc, 1 + (long)h_below(h, 9), mode);
+        free_case(&fc);
+    }
     long n = h->thorough ? 1500 : 120;
     for (long i = 0; i < n; i++) {
         fcase fc; gen_case(h, &fc, i % 2 == 0);
@@ -559,6 +722,8 @@ static void gen_batlate(hctx* h) {
     }
 }
 static int replay_batlate(hctx* h, const h_line* l) {
+    if (!strcmp(l->op, "hdrtags")) { fcase fc; if (parse_case(l, &fc)) return 1; run_hdrtags(h, &fc, (long)h_ll(h_in(l, "bs"))); free_case(&fc); return 1; }
+    if (!strcmp(l->op, "bigfile")) { fcase fc; if (parse_case(l, &fc)) return 1; run_bigfile(h, &fc, strtoull(h_in(l, "gap"), NULL, 10), (long)h_ll(h_in(l, "bs"))); free_case(&fc); return 1; }
     if (strcmp(l->op, "batlate") != 0) return 0;
     fcase fc; if (parse_case(l, &fc)) return 1;
     run_batlate(h, &fc, (long)h_ll(h_in(l, "bs")), (int)h_ll(h_in(l, "mode"))); free_case(&fc); return 1;
